@@ -116,9 +116,35 @@ func (v *defaultValidator) generate(out *codegen.Emitter, format string) {
 
 	out.Printlnf(`if v, ok := %s["%s"]; !ok || v == nil {`, varNameRawMap, v.jsonName)
 	out.Indent(1)
-	out.Printlnf(`%s = %s`, getPlainName(v.fieldName), defaultValue)
+
+	if prim, ok := pointedPrimitive(v.defaultValueType); ok {
+		// A nullable scalar is a pointer field: the literal cannot be assigned to it directly.
+		out.Printlnf(`defaultValue := %s(%s)`, prim.Type, defaultValue)
+		out.Printlnf(`%s = &defaultValue`, getPlainName(v.fieldName))
+	} else {
+		out.Printlnf(`%s = %s`, getPlainName(v.fieldName), defaultValue)
+	}
+
 	out.Indent(-1)
 	out.Printlnf("}")
+}
+
+// pointedPrimitive returns the primitive type t points to, if t is a pointer to one.
+func pointedPrimitive(t codegen.Type) (codegen.PrimitiveType, bool) {
+	var elem codegen.Type
+
+	switch p := t.(type) {
+	case *codegen.PointerType:
+		elem = p.Type
+	case codegen.PointerType:
+		elem = p.Type
+	default:
+		return codegen.PrimitiveType{}, false
+	}
+
+	prim, ok := elem.(codegen.PrimitiveType)
+
+	return prim, ok
 }
 
 func (v *defaultValidator) dumpDefaultValue(out *codegen.Emitter) any {
